@@ -2,8 +2,8 @@ SPECIFICATION Spec
 CONSTANTS
   OneDay = 8192
   Shape = "forks"
-  MaxBlocks = 110
-  MaxHeight = 64
+  MaxBlocks = 90
+  MaxHeight = 48
   Emit = FALSE
 INVARIANT TypeOK
 INVARIANT SkipPointsToAncestor
